@@ -30,6 +30,8 @@ def throws(g, name):
 
 def run(ctx):
     repo, cg = ctx.repo, ctx.cg
+    from .C20 import ownbits_rule
+    ownbits_rule(ctx, 'C21-OWNBITS')       # a read is recorded on the object that was read, guarded by that object's own write bits
     # ---------------------------------------------------------------- OVERWRITE
     n = 0
     for qual in ('Attribute.db_set', 'Entity._db_set_'):
